@@ -15,7 +15,9 @@ import sys
 import time
 
 VERIF = os.path.dirname(os.path.dirname(os.path.abspath(__file__)))
-EVIDENCE_DIR = os.path.join(VERIF, "evidence")
+# runs against a scratch tree (CURTSIES_REPO=...) must never overwrite the evidence of /repo itself
+_SCRATCH = os.environ.get("CURTSIES_REPO", "/repo").rstrip("/") != "/repo"
+EVIDENCE_DIR = os.path.join(VERIF, "evidence", "scratch") if _SCRATCH else os.path.join(VERIF, "evidence")
 REPLAY_DIR = os.path.join(EVIDENCE_DIR, "replays")
 KNOWN_FINDINGS = os.path.join(VERIF, "known_findings.json")
 
